@@ -192,6 +192,44 @@ def rule_c(ctx):
         facts = facts_at(m, sbb)
         cond = [(c, inf) for (c, inf, b) in facts if truth(inf) is True and c in rv]
         same = {c for c, _ in cond} == set(rv) and bool(rv)
+        if not same and rv:
+            # path form: the answer is assembled from literals — `.. None => return false, .. store(pruned); true`. Then every `true` is assigned
+            # only where the publish has already happened, every `false` only where it cannot have happened, and a computed answer is the
+            # very condition the publish hangs on.
+            sites_ = []
+
+            def ret_sites(local, at, depth=0):
+                for site in fl.reaching(local, at):
+                    if site[0] == "entry" or depth > 6:
+                        sites_.append((None, None)); continue
+                    sb, si = site
+                    bl_ = m.blocks[sb]
+                    if si >= len(bl_["s"]):
+                        sites_.append((sb, ("expr", ("call", sb)))); continue
+                    st = bl_["s"][si]
+                    r_ = st["r"] if st["k"] == "assign" else None
+                    if r_ and r_["k"] == "use" and r_["o"]["k"] == "const":
+                        sites_.append((sb, ("const", 1 if r_["o"]["c"].get("val") else 0)))
+                    elif r_ and r_["k"] == "use" and r_["o"]["k"] in ("copy", "move") and not r_["o"]["p"]["p"]:
+                        ret_sites(r_["o"]["p"]["l"], (sb, si), depth + 1)
+                    else:
+                        sites_.append((sb, ("expr", [deep_strip(e) for e in fl.rvalue(r_, (sb, si))] if r_ else None)))
+            for rb in rets:
+                ret_sites(0, (rb, len(m.stmts(rb))))
+            before_store = cfg.reachable(m, 0, avoid={sbb}, unwind=False)
+            after_store = cfg.reachable_after(m, sbb, unwind=False)
+            okp = bool(sites_)
+            for (sb, v) in sites_:
+                if sb is None:
+                    okp = False
+                elif v[0] == "const" and v[1] == 1:
+                    okp = okp and (sb not in before_store or sb == sbb)          # true only once the publish is behind us
+                elif v[0] == "const" and v[1] == 0:
+                    okp = okp and sb not in after_store                          # false only where no publish happened
+                else:
+                    ex_ = v[1] if isinstance(v[1], list) else []
+                    okp = okp and bool(ex_) and all(any(c == e and truth(inf) is True for (c, inf, b) in facts) for e in ex_)
+            same = okp
         ctx.check(same, rid, "%s:publish-iff-returned-true" % name.split("::")[-1], "the publish happens exactly on the true branch of the value that is returned",
                   stt["sp"], {"returned": [show(e) for e in rv], "publish_condition": [(show(c), i) for c, i, _ in facts]})
         nonconst = [e for e in rv if e[0] != "const"]
